@@ -103,6 +103,51 @@ def final_value(t):
     return t
 
 
+def raise_guards(t):
+    """Conditions under which the function raises before producing its value: [cond, ...] (as they must be FALSE for the value)."""
+    out = []
+    while t[0] == "ite":
+        if t[2] == RAISE:
+            out.append(t[1])
+            t = t[3]
+        elif t[3] == RAISE:
+            out.append(("not", t[1]))
+            t = t[2]
+        else:
+            break
+    return out
+
+
+def hex_digits_validated(ret) -> bool:
+    """Before int(.., 16) every character of the digit string is restricted to hex digits: a rejected
+    `all(c in <hex alphabet> for c in h)` or a rejected full regex match. Without it int() also accepts
+    signs, underscores and surrounding whitespace ('-f', '+a', '1_0')."""
+    import string
+    ok = []
+
+    def visit(n, negated):
+        if n[0] == "not":
+            visit(n[1], not negated)
+            return
+        if n[0] in ("or", "and"):
+            for x in n[1]:
+                visit(x, negated)
+            return
+        if negated and n[0] == "call" and n[1] == "all" and n[2] and n[2][0][0] in ("mapcomp", "tuple"):
+            mc = n[2][0]
+            if mc[0] == "mapcomp" and mc[2][0] == "cmp" and mc[2][1] == "in" and mc[2][2] == ("var", "$elt") and mc[2][3][0] == "str":
+                alpha = set(mc[2][3][1])
+                if alpha and alpha <= set(string.hexdigits) and set("0123456789") <= alpha:
+                    ok.append(True)
+        if negated and n[0] == "call" and str(n[1]).startswith("re.") and str(n[1]).rsplit(".", 1)[-1] in ("fullmatch",) and n[2] and n[2][0][0] == "str":
+            pat = n[2][0][1]
+            if "[0-9a-f" in pat.lower() and "{" in pat and not any(ch in pat for ch in "+-_. "):
+                ok.append(True)
+    for c in raise_guards(ret):
+        visit(c, False)
+    return bool(ok)
+
+
 def lowered(o) -> bool:
     """Origin is .lower() of .strip() of something (case and outer whitespace normalised)."""
     seen_lower = seen_strip = False
@@ -121,6 +166,29 @@ def run(project, chk):
     chk.rule("N5", "hsl: hue % 360 on every entry, S and L percentages / 100, CSS HSL->RGB algorithm, round(x*255)")
     chk.not_decided += ["nearest-8-bit rounding of arbitrary decimal components (numeric)", "whitespace inside functional notation / informal forms (lexical behaviour of the regex tokeniser)",
                         "the 1.5-unit bound of translucent forms (C13)"]
+
+    # ---------------------------------------------------------------- N0: the parser is a function of its arguments
+    chk.rule("N0", "parse_color_to_rgb and everything it calls read and write no module-level state (a result cache keyed on part of the input breaks 'equivalent spellings give identical results')")
+    from sa.effects import Effects
+    eff = Effects(project)
+    entry = f"{PAR}.parse_color_to_rgb"
+    project.func(entry)
+    closure = eff.reach(entry)
+    dirty = [(q, d, n) for q in sorted(closure) for (d, n) in eff.sum[q].module_writes]
+    for q, d, n in dirty:
+        f2 = project.funcs[q]
+        chk.fail("N0", f2.short, norm_text(n), project.loc(f2.module, n), f"the parser's call closure writes module-level state {d}: what a colour parses to can depend on what was parsed before (e.g. a cache keyed without the background or on the un-normalised spelling)")
+    if not dirty:
+        chk.ok("N0", f"{project.loc(project.func(entry).module, project.func(entry).node)} core.color_parser.parse_color_to_rgb", f"the {len(closure)} functions in the parser's call closure write no module-level state", "effect summaries closed over the call graph")
+    from sa.effects import CACHE_DECORATORS
+    for q in sorted(closure):
+        f2 = project.funcs[q]
+        from sa.resolve import Scope as _S
+        for d in f2.node.decorator_list:
+            tgt = d.func if isinstance(d, ast.Call) else d
+            qd = (_S(project, f2.parent) if f2.parent else _S(project, None, f2.module)).resolve(tgt)
+            if qd in CACHE_DECORATORS:
+                chk.fail("N0", f2.short, "@" + norm_text(d), project.loc(f2.module, d), f"memoised with {qd}: hash-equal arguments (1, 1.0, True) share an entry although they parse differently")
 
     # ---------------------------------------------------------------- N1
     m = project.module("cm_colors.core.named_colors")
@@ -280,6 +348,8 @@ def run(project, chk):
         exp_ok = three and doubled
     chk.check(exp_ok, "N4", fi.short, "3-digit expansion", loc, "#rgb is expanded by doubling each digit (r -> rr, g -> gg, b -> bb)", how="digits = ''.join(c * 2 for c in h) when len(h) == 3",
               message=f"3-digit hex is not expanded by doubling each digit: {show(digits)[:200] if digits is not None else 'unreadable'}")
+    chk.check(hex_digits_validated(ret), "N4", fi.short, "hex digit validation", loc, "every character is checked to be a hex digit before int(.., 16) (which would also accept signs, underscores, whitespace)",
+              how="a failed all(c in <hex alphabet> ...) / regex full match raises before the conversion", message="the hex digits are not validated character by character before int(pair, 16): '#-f0000' or '#1_0000' parse to (possibly negative) numbers instead of being rejected")
     # both letter cases accepted by the validity test
     src = ast.get_source_segment(fi.module.src, fi.node) or ""
     alpha_sets = [n.value for n in ast.walk(fi.node) if isinstance(n, ast.Constant) and isinstance(n.value, str) and set("0123456789").issubset(set(n.value)) and len(n.value) >= 16]
